@@ -66,8 +66,10 @@ type fakeClock struct {
 	// wake-up is gone again by the time the worker looks.
 	gate    chan struct{}
 	gateSeq int
-	held    map[uint64]int  // Synchronize goroutine -> number of holds begun before it started
-	auth    map[uint64]bool // WaitExecution goroutines whose authorization takes until the hold ends
+	held    map[uint64]int    // Synchronize goroutine -> number of holds begun before it started
+	names   map[uint64]string // Synchronize goroutine -> worker key
+	readAt  map[string]int64  // worker key -> clock value its suspended call had read
+	auth    map[uint64]bool   // WaitExecution goroutines whose authorization takes until the hold ends
 }
 
 type delayedSync struct {
@@ -119,6 +121,10 @@ func (c *fakeClock) Now() time.Time {
 		// call started with hold=2); they have read the clock and are overtaken by whatever
 		// runs until the hold ends, i.e. they enter the scheduler with an old time stamp
 		if since, ok := c.held[goid()]; ok && since < c.gateSeq {
+			if c.readAt == nil {
+				c.readAt = map[string]int64{}
+			}
+			c.readAt[c.names[goid()]] = c.now
 			c.mu.Unlock()
 			<-g
 			return now
@@ -139,11 +145,13 @@ func (c *fakeClock) markDelayed() {
 	c.mu.Unlock()
 }
 
-func (c *fakeClock) markHeld() {
+func (c *fakeClock) markHeld(key string) {
 	c.mu.Lock()
 	if c.held == nil {
 		c.held = map[uint64]int{}
+		c.names = map[uint64]string{}
 	}
+	c.names[goid()] = key
 	c.held[goid()] = c.gateSeq
 	c.mu.Unlock()
 }
@@ -151,6 +159,7 @@ func (c *fakeClock) markHeld() {
 func (c *fakeClock) unmarkHeld() {
 	c.mu.Lock()
 	delete(c.held, goid())
+	delete(c.names, goid())
 	c.mu.Unlock()
 }
 
@@ -702,7 +711,7 @@ func (w *world) startSync(pq string, sc int, comps []int, plat int, h, t int, re
 	}
 	go func() {
 		defer w.guard("Synchronize")
-		w.clk.markHeld()
+		w.clk.markHeld(key)
 		if delayed {
 			w.clk.markDelayed()
 		}
@@ -854,4 +863,13 @@ func (w *world) dkey(comps string, d int) int {
 	}
 	w.dkeys[k] = len(w.dkeys) + 1
 	return w.dkeys[k]
+}
+
+// takeReadAt returns (and forgets) the clock value a suspended Synchronize call of the worker had read.
+func (c *fakeClock) takeReadAt(key string) (int64, bool) {
+	c.mu.Lock()
+	defer c.mu.Unlock()
+	t, ok := c.readAt[key]
+	delete(c.readAt, key)
+	return t, ok
 }
